@@ -41,6 +41,9 @@ type SubmitOutcome struct {
 	Kind    SubmitKind `json:"kind"`
 	N       int        `json:"n,omitempty"`       // for SubPrefix: number accepted (clamped to [0,len-1] ... see below)
 	Advance bool       `json:"advance,omitempty"` // close the DA height after this call (next submit lands one higher)
+	// Decor decorates the error of an error kind the way real DA nodes do: 1 wrapped with context, 2 joined with
+	// Go's context.DeadlineExceeded ("gave up waiting"), 3 the deadline error first and the DA error wrapped after it
+	Decor int `json:"decor,omitempty"`
 }
 
 // ReadKind enumerates outcomes of fetching one DA height.
@@ -413,6 +416,19 @@ func (d *SimDA) submit(ctx context.Context, by string, epoch int, blobs [][]byte
 		store(fit)
 		ids = nil
 		err = errors.New("sim: connection reset while waiting for submit response")
+	}
+	if err != nil && out.Decor%4 != 0 {
+		switch out.Decor % 4 {
+		case 1:
+			err = fmt.Errorf("sim: da node: %w", err)
+		case 2:
+			err = fmt.Errorf("%w: %w", err, context.DeadlineExceeded)
+		case 3:
+			err = fmt.Errorf("sim: gave up after 30s: %w (%w)", context.DeadlineExceeded, err)
+		}
+		d.Stats[fmt.Sprintf("submit:decorated-error-%d", out.Decor%4)]++
+	}
+	switch out.Kind {
 	case SubCrashBefore:
 		d.logCall(call)
 		d.mu.Unlock()
